@@ -117,6 +117,12 @@ pub trait Family: Sync + Send {
     fn watchdog_ms(&self) -> u64 {
         20_000
     }
+    /// Stack of the thread a run executes on. Families whose victim is a consuming client use
+    /// what a tokio worker thread gets (2 MiB), so that unbounded recursion driven by peer input
+    /// overflows here as it would there.
+    fn stack_bytes(&self) -> usize {
+        16 << 20
+    }
     /// True if the family enumerates a finite fault-point space completely at this tier.
     fn exhaustive_note(&self, _property: &str, _tier: Tier) -> Option<String> {
         None
